@@ -645,61 +645,64 @@ func checkC06Post(r *Report, p *Prog) {
 		okE := B.HasVar(nm) && B.Implies(B.Not(B.Var(nm)), B.Or(t.Reject, B.Not(fc.Cond(c.Block()))))
 		r.Check(okE, rule, p.FnName(pb)+": a failure to build the response is reported", p.InstrPos(c), "MakeResponse error => reject", "the form is produced although building/signing the response failed")
 	}
-	// WriteResponse: only the executed template is written
+	// WriteResponse: only the executed template is written (the function with the helpers it is split into)
 	wr := p.MustFunc("saml", "IdpAuthnRequest", "WriteResponse")
 	a2 := NewAnalysis(p)
 	f2 := a2.Ctx(wr)
 	f2.ensureConds()
 	r.Fn(p.FnName(wr))
 	n := 0
-	for _, b := range wr.Blocks {
-		for _, in := range b.Instrs {
-			c, ok := in.(*ssa.Call)
-			if !ok {
-				continue
-			}
-			w := wr.Params[len(wr.Params)-1]
-			isW := func(v ssa.Value) bool {
-				for i := 0; i < 3; i++ {
-					if v == ssa.Value(w) {
-						return true
-					}
-					if mi, ok := v.(*ssa.ChangeInterface); ok {
-						v = mi.X
-						continue
-					}
-					if mi, ok := v.(*ssa.MakeInterface); ok {
-						v = mi.X
-						continue
-					}
-					break
-				}
-				return false
-			}
-			if !isReplyCall(&c.Call, isW) {
-				continue
-			}
-			n++
-			ok2 := false
-			if calleeIs(c, "io.Copy") || calleeIs(c, "(*bytes.Buffer).WriteTo") {
-				// source buffer was filled by Template.Execute(buf, form) with form from PostBinding under err == nil
-				src := c.Call.Args[1]
-				if calleeIs(c, "(*bytes.Buffer).WriteTo") {
-					src = c.Call.Args[0]
-				}
-				for _, ex := range methodCallsOn(wr, "(*html/template.Template).Execute") {
-					if derivesFrom(src, rootIface(ex.Call.Args[1]), 0) || rootIface(src) == rootIface(ex.Call.Args[1]) {
-						dataAP := f2.AP(ex.Call.Args[2])
-						nm := "isnil(" + f2.AP(ex) + ")"
-						if strings.Contains(dataAP, "PostBinding") && a2.B.HasVar(nm) && f2.Implied(b, a2.B.Var(nm)) {
-							ok2 = true
-						}
-					}
-				}
-			}
-			r.Check(ok2, rule, p.FnName(wr)+": the reply body is the executed html/template over the PostBinding form", p.InstrPos(in), "io.Copy(w, buffer filled by Template.Execute)", "bytes other than the executed form template are written to the response")
+	rgw := NewRegion(p, wr, 2)
+	rootW := ssa.Value(wr.Params[len(wr.Params)-1])
+	execs := rgw.Calls("(*html/template.Template).Execute")
+	rgw.Each(func(x RI) {
+		c, ok := x.I.(*ssa.Call)
+		if !ok {
+			return
 		}
-	}
+		isW := func(v ssa.Value) bool {
+			for _, o := range rgw.Origins(RV{V: rootIface(v), C: x.C}) {
+				if rootIface(o.V) == rootW {
+					return true
+				}
+			}
+			return false
+		}
+		if !isReplyCall(&c.Call, isW) {
+			return
+		}
+		n++
+		ok2 := false
+		if calleeIs(c, "io.Copy") || calleeIs(c, "(*bytes.Buffer).WriteTo") {
+			// source buffer was filled by Template.Execute(buf, form) with form from PostBinding under err == nil
+			src := c.Call.Args[1]
+			if calleeIs(c, "(*bytes.Buffer).WriteTo") {
+				src = c.Call.Args[0]
+			}
+			fx := rgw.Ctx(a2, x.C)
+			fx.ensureConds()
+			for _, e := range execs {
+				ex := e.I.(*ssa.Call)
+				if e.C != x.C {
+					continue
+				}
+				if !(derivesFrom(src, rootIface(ex.Call.Args[1]), 0) || rootIface(src) == rootIface(ex.Call.Args[1])) {
+					continue
+				}
+				fromPB := false
+				for _, o := range rgw.Origins(RV{V: ex.Call.Args[2], C: e.C}) {
+					if strings.Contains(rgw.Ctx(a2, o.C).AP(o.V), "PostBinding") {
+						fromPB = true
+					}
+				}
+				nm := "isnil(" + fx.AP(ex) + ")"
+				if fromPB && a2.B.HasVar(nm) && fx.Implied(x.I.Block(), a2.B.Var(nm)) {
+					ok2 = true
+				}
+			}
+		}
+		r.Check(ok2, rule, p.FnName(wr)+": the reply body is the executed html/template over the PostBinding form", p.InstrPos(x.I), "io.Copy(w, buffer filled by Template.Execute)", "bytes other than the executed form template are written to the response")
+	})
 	if n == 0 {
 		r.Bad(rule, p.FnName(wr)+": reply", p.Pos(wr.Pos()), "nothing is written to the response")
 	}
